@@ -56,7 +56,12 @@ Inductive op :=
 | OpSend (body : bytes)       (* the application calls Send in a new goroutine *)
 | OpCancelSend (i : nat)
 | OpRecv
-| OpCancelRecv (j : nat).
+| OpCancelRecv (j : nat)
+| OpResp2 (r1 r2 : resp)      (* two responses queued back to back: the reader handles both before anybody else runs *)
+| OpRecvC                     (* the application calls Recv with an ALREADY CANCELLED context *)
+| OpSendC (body : bytes)      (* the application calls Send with an already cancelled context *)
+| OpHold                      (* the relay stops reading: the client's next stream write blocks *)
+| OpRelease.                  (* the blocked write returns *)
 
 Definition op_action (o : op) : action :=
   match o with
@@ -67,6 +72,17 @@ Definition op_action (o : op) : action :=
   | OpCancelSend i => ASendCancel i
   | OpRecv => ARecvStart
   | OpCancelRecv j => ARecvCancel j
+  | _ => ARecvCancel 0%nat (* unused: see op_actions *)
+  end.
+
+(* the actions an operation stands for, performed before anybody else runs *)
+Definition op_actions (s : cstate) (o : op) : list action :=
+  match o with
+  | OpResp2 r1 r2 => [AResp r1; AResp r2]
+  | OpRecvC => let j := length (recvs s) in [ARecvStart; ARecvIter j; ARecvCancel j]
+  | OpSendC b => let i := length (sends s) in [ASendStart b; ASendIter i; ASendCancel i]
+  | OpHold | OpRelease => []
+  | _ => [op_action o]
   end.
 
 (* status codes: Send 0 running, 1 ok, 2 cancelled, 3 error;
@@ -117,12 +133,43 @@ Definition script_step (c : cfg) (s : cstate) (o : op) : cstate * list obs * boo
   let '(s2, o2, q) := settle settle_fuel c s1 in
   (s2, o1 ++ o2, q).
 
-Fixpoint script_agree (c : cfg) (s : cstate) (ops : list op) (ws : list opobs) : bool :=
+(* Back pressure: while the relay holds the stream, the loop pass that writes a
+   request blocks in that write (the request is already on its way) and the
+   loop goroutine does nothing else until the write returns. *)
+Definition emits (o : list obs) : bool := match reqs_of o with [] => false | _ => true end.
+
+Definition held_candidates (stuck : bool) (s : cstate) : list action :=
+  if stuck
+  then map ASendIter (seq 0 (length (sends s))) ++ map ARecvIter (seq 0 (length (recvs s)))
+  else internal_candidates s.
+
+Fixpoint settleH (fuel : nat) (c : cfg) (held stuck : bool) (s : cstate) : cstate * list obs * bool * bool :=
+  match fuel with
+  | O => (s, [], false, stuck)
+  | S f =>
+      match first_enabled c s (held_candidates stuck s) with
+      | None => (s, [], true, stuck)
+      | Some (a, (s1, o1)) =>
+          let stuck1 := stuck || (held && match a with ALoop => emits o1 | _ => false end) in
+          let '(s2, o2, q, st2) := settleH f c held stuck1 s1 in (s2, o1 ++ o2, q, st2)
+      end
+  end.
+
+Record sstate := mkSS { ss_c : cstate; ss_held : bool; ss_stuck : bool }.
+
+Definition script_stepH (c : cfg) (z : sstate) (o : op) : sstate * list obs * bool :=
+  let held := match o with OpHold => true | OpRelease => false | _ => ss_held z end in
+  let stuck := match o with OpRelease => false | _ => ss_stuck z end in
+  let '(s1, o1) := run c (ss_c z) (op_actions (ss_c z) o) in
+  let '(s2, o2, q, st2) := settleH settle_fuel c held stuck s1 in
+  (mkSS s2 held st2, o1 ++ o2, q).
+
+Fixpoint script_agree (c : cfg) (z : sstate) (ops : list op) (ws : list opobs) : bool :=
   match ops, ws with
   | [], [] => true
   | o :: ops', w :: ws' =>
-      let '(s1, ob, q) := script_step c s o in
-      q && opobs_agree s1 ob w && script_agree c s1 ops' ws'
+      let '(z1, ob, q) := script_stepH c z o in
+      q && opobs_agree (ss_c z1) ob w && script_agree c z1 ops' ws'
   | _, _ => false
   end.
 
@@ -131,7 +178,7 @@ Inductive script_case :=
 
 Definition script_case_agree (c : script_case) : bool :=
   match c with
-  | Script self peer ops ws => script_agree (mkCfg self peer) c_init ops ws
+  | Script self peer ops ws => script_agree (mkCfg self peer) (mkSS c_init false false) ops ws
   end.
 
 (* ------------------------------------------------------------------ *)
@@ -145,7 +192,9 @@ Inductive wop :=
 | WoSend (x : bool) (body : bytes)
 | WoCancelSend (x : bool) (i : nat)
 | WoRecv (x : bool)
-| WoCancelRecv (x : bool) (j : nat).
+| WoCancelRecv (x : bool) (j : nat)
+| WoRecvC (x : bool)                   (* Recv with an already cancelled context *)
+| WoSendC (x : bool) (body : bytes).   (* Send with an already cancelled context *)
 
 Definition wop_action (o : wop) : wact :=
   match o with
@@ -155,6 +204,17 @@ Definition wop_action (o : wop) : wact :=
   | WoCancelSend x i => WCli x (ASendCancel i)
   | WoRecv x => WCli x ARecvStart
   | WoCancelRecv x j => WCli x (ARecvCancel j)
+  | WoRecvC x => WCli x ARecvStart
+  | WoSendC x b => WCli x (ASendStart b)
+  end.
+
+Definition wop_actions (w : world) (o : wop) : list wact :=
+  match o with
+  | WoRecvC x => let j := length (recvs (s_cl (gs x w))) in
+                 [WCli x ARecvStart; WCli x (ARecvIter j); WCli x (ARecvCancel j)]
+  | WoSendC x b => let i := length (sends (s_cl (gs x w))) in
+                   [WCli x (ASendStart b); WCli x (ASendIter i); WCli x (ASendCancel i)]
+  | _ => [wop_action o]
   end.
 
 Definition side_internal (x : bool) (w : world) : list wact :=
@@ -194,7 +254,7 @@ Definition side_agree (c : cstate) (w : sideobs) : bool :=
 Definition wsettle_fuel : nat := 2000%nat.
 
 Definition wscript_step (w : world) (o : wop) : world * list (bool * obs) * bool :=
-  let '(w1, o1) := wexec w (wop_action o) in
+  let '(w1, o1) := wrun w (wop_actions w o) in
   let '(w2, o2, q) := wsettle wsettle_fuel w1 in
   (w2, o1 ++ o2, q).
 
